@@ -143,7 +143,7 @@ CHECKS["C05"] = {
     "design_ref": "5 C05",
     "note": "Trusted: harness `vh tir` over the synthetic environment E0 (resolution errors of the type map are C17's subject), vlib/tirtok.py. NOT proved: the whole-program statement beyond the "
             "expression fragment above as DERIVATIONS (calls of implicit this-methods, function literals; statements -- these are covered by the code-level theorem), and the converse direction (well typed => accepted, which also "
-            "needs the value conditions of the folder); callback-parameter compatibility with the signal is checked under C13.",
+            "needs the value conditions of the folder); callback-parameter compatibility with the signal is proved as C05_callback_parameters_fit_the_signal (model/Callback.v) and compared with the code under C13.",
 }
 
 CHECKS["C09"] = {
